@@ -64,10 +64,15 @@ Definition find_hog (fo : forest) (o : nat) : option hog :=
   find (fun h => match h with HHog o' _ _ _ => Nat.eqb o o' | _ => false end)
        (flat_map all_of (fo_roots fo)).
 
-(* the whole-dataset profile: one cached map per non-root node, every node gets a genome *)
+(* the whole-dataset profile: one cached map per non-root node that has (or gets) a genome; every internal node
+   gets a genome.  Finding F8 repaired: a leaf without genome (a species of the tree with no gene in the data) gets
+   neither a genome nor a map - all genes of its parent level are lost on that branch, which is what full_node
+   computes from the forest. *)
+Definition skip_leaf (t : stree) (gs : list taxon) (p : taxon) : bool := is_leaf t p && negb (mem_tax p gs).
+
 Definition profile_maps (fo : forest) (t : stree) (s : sstate) : sstate :=
   fold_left (fun s pn => match up (fst pn) with
-                         | Some u => fst (cached_map fo s u (fst pn))
+                         | Some u => if skip_leaf t (ss_genomes s) (fst pn) then s else fst (cached_map fo s u (fst pn))
                          | None => s
                          end) (all_nodes t) s.
 
@@ -86,7 +91,8 @@ Definition sstep (t : stree) (fo : forest) (s : sstate) (o : op) : sstate * out 
       match profile_full t fo with
       | Ok r =>
           let s1 := profile_maps fo t s in
-          ({| ss_genomes := fold_left (fun gs pn => add_genome (fst pn) gs) (all_nodes t) (ss_genomes s1);
+          ({| ss_genomes := fold_left (fun gs pn => if is_leaf t (fst pn) then gs else add_genome (fst pn) gs)
+                                      (all_nodes t) (ss_genomes s1);
               ss_maps := ss_maps s1; ss_clust := ss_clust s1; ss_vis := ss_vis s1 |}, RProfile (Ok r))
       | Err e => (s, RProfile (Err e))
       end
